@@ -5,6 +5,11 @@ Only property theorems and their non-vacuity examples live here (namespace Rpyc.
 RpycModel/Policy/Model.lean (`_check_attr`, `_access_attr`, handlers, hooks, connection histories), the
 vocabulary `NameAllowed` / `HasTwin` and the helper lemmas are in RpycModel/Policy/Lemmas.lean.
 
+Definitional statements (true by unfolding the model; kept because they SAY what the model does at a point the
+statement cares about, not counted as evidence of anything beyond that): `nontext_name_typeError`,
+`oldslicing_first_succeeds`, `oldslicing_falls_back`, `hook_decides`, `allowed_effect_exact`, `open_takes_snapshot`,
+`server_connection_snapshot`, `others_cannot_change`, `probes_spec`, `checkAttr_spec`.
+
 Every theorem quantifies over ALL configurations (all 2^7 switch settings, any prefix, any safe list), all names,
 all objects (`has` and the hooks are arbitrary functions), and — for isolation — all histories.
 -/
@@ -740,6 +745,33 @@ example : (hrun Modes.measured HWorld.init serverHistory).cfgOf 5 = some default
 /-- the hypotheses of `isolation` are met by that history: every later event is fair, connection 2 is established -/
 example : (∀ e ∈ historyPost, e.fair = true)
     ∧ (hrun Modes.measured HWorld.init historyPre).conns 2 ≠ .fresh := by decide
+/-- non-vacuity of the cmp / ctxexit / oldslicing theorems: a hook-less object with a pure `hasattr` whose requests
+are refused (hypotheses of `*_denied_no_effect`, `oldslicing_both_refused`) resp. served -/
+def exitN : PyStr := exitName
+def plainWithExit : Obj := plainObj 0 (fun n => n == exitN)
+example : plainWithExit.hook .get = none ∧ PureProbes plainWithExit := ⟨rfl, fun _ => rfl⟩
+example : (handleCmp true defaultConfig svcLike svcLike (.text underX)).out = .error .attributeError
+    ∧ (handleCtxExit { defaultConfig with allowGet := false } plainWithExit).out = .error .attributeError
+    ∧ (handleCtxExit defaultConfig plainWithExit).log
+        = [.probe 0 (Gen.Policy.cfgExposedPrefixCp ++ exitN), .access 0 .get exitN, .call 0 exitN] := by decide
+example : (run defaultConfig svcLike (.text underX) .get).out = .error .attributeError
+    ∧ (run defaultConfig svcLike (.text [95, 121]) .get).out = .error .attributeError
+    ∧ (handleOldSlicing defaultConfig svcLike (.text underX) (.text [95, 121]) false).out = .error .attributeError := by
+  decide
+/-- oldslicing really falls back: `_x` is refused, `foo` (twin present) is then served -/
+example : stageFails svcLike (thenCall svcLike (run defaultConfig svcLike (.text underX) .get)) false = true
+    ∧ (handleOldSlicing defaultConfig svcLike (.text underX) (.text foo) false).out = .ok (.direct expFoo) := by decide
+/-- a delete on a restricted view whose probed twin is listed reads the target (hypothesis of
+`restricted_del_reaches_target_only_by_listed_reads` is non-trivially met), and for an unlisted name does not -/
+example : (run { defaultConfig with allowDel := true } (restrictedView 0 1 [expFoo] none (fun _ => false) (fun _ => true))
+      (.text foo) .del).log = [.probe 0 expFoo, .access 1 .get expFoo, .access 0 .del expFoo]
+    ∧ (run { defaultConfig with allowDel := true } (restrictedView 0 1 [underX] none (fun _ => false) (fun _ => true))
+      (.text foo) .del).log = [.probe 0 expFoo] := by decide
+/-- `server_config_is_private` / `shared_objects_never_written`: their hypotheses hold for a history that constructs,
+edits and uses OTHER servers and edits other dicts -/
+example : (∀ e ∈ serverHistory.drop 2, e.mayEdit .dflt = false)
+    ∧ (∀ e ∈ serverHistory.drop 2, e.mayEdit (.srv 2) = false)      -- no edit of / through / re-construction of server 2
+    ∧ (∀ e ∈ serverHistory.drop 2, e.fair = true) := by decide
 /-- "café" as UTF-8 bytes is the text name -/
 example : utf8Dec false [99, 97, 102, 0xC3, 0xA9] = some [99, 97, 102, 233]
     ∧ utf8Dec false [0xED, 0xA0, 0x80] = none ∧ utf8Dec false [0xFF] = none := by decide
